@@ -26,6 +26,9 @@ impl Sym {
         kani::assume(len <= MAXLEN);
         Sym { vals: kani::any(), len }
     }
+    pub(crate) fn with_len(len: usize) -> Self {
+        Sym { vals: kani::any(), len }
+    }
     pub(crate) fn oracle(&self) -> Vec<u8> {
         let mut v = Vec::with_capacity(CAP + 1);
         let mut i = 0;
@@ -243,15 +246,15 @@ pub(crate) fn zst_capacity_unlimited() {
 
 // ------------------------------------------------------------------------------------------ C16
 
-#[kani::proof]
-#[kani::unwind(7)]
-pub(crate) fn split_off_partitions() {
-    let s = Sym::any();
+pub(crate) fn split_off_partitions(len: usize, interior: bool) {
+    let s = Sym::with_len(len);
     let mut buf = [MaybeUninit::uninit(); CAP];
     let base = buf.as_ptr() as usize;
     let mut b = boxed(&mut buf, &s);
     let (lo, hi): (usize, usize) = (kani::any(), kani::any());
     kani::assume(lo <= hi && hi <= s.len);
+    // prefix / suffix / full / empty ranges are pointer surgery; interior ranges rotate elements (much more expensive for CBMC)
+    kani::assume(interior == (lo > 0 && hi < s.len && lo < hi));
     let part = b.split_off(lo..hi);
     // lengths add up; the split-off part holds exactly the range, the rest holds the other elements in order
     kani::assert(part.len() == hi - lo && b.len() == s.len - (hi - lo), "C16.split_off.lengths_add_up");
@@ -283,9 +286,29 @@ pub(crate) fn split_off_partitions() {
         core::mem::forget(part);
         core::mem::forget(b);
     }
-    kani::cover!(lo > 0 && hi < s.len && lo < hi, "interior-range");
-    kani::cover!(lo == 0 && hi == s.len && s.len > 0, "full-range");
-    kani::cover!(lo == hi, "empty-range");
+    kani::cover!(!interior || (lo > 0 && hi < s.len && lo < hi), "interior-range");
+    kani::cover!(interior || (lo == 0 && hi == s.len && s.len > 0), "full-range");
+    kani::cover!(interior || lo == hi, "empty-range");
+    kani::cover!(interior || (lo == 0 && hi > 0 && hi < s.len), "prefix");
+    kani::cover!(interior || (lo > 0 && lo < hi && hi == s.len), "suffix");
+}
+
+#[kani::proof]
+#[kani::unwind(5)]
+pub(crate) fn split_off_edges_len3() {
+    split_off_partitions(3, false);
+}
+
+#[kani::proof]
+#[kani::unwind(7)]
+pub(crate) fn split_off_edges_len4() {
+    split_off_partitions(4, false);
+}
+
+#[kani::proof]
+#[kani::unwind(7)]
+pub(crate) fn split_off_interior_len3() {
+    split_off_partitions(3, true);
 }
 
 #[kani::proof]
@@ -332,12 +355,86 @@ pub(crate) fn split_at_first_last() {
 
 #[kani::proof]
 #[kani::unwind(7)]
-pub(crate) fn fixed_vec_split_off_capacity() {
+pub(crate) fn merge_restores_whole() {
     let s = Sym::any();
+    let mut buf = [MaybeUninit::uninit(); CAP];
+    let base = buf.as_ptr() as usize;
+    let b = boxed(&mut buf, &s);
+    let at: usize = kani::any();
+    kani::assume(at <= s.len);
+    let (l, r) = b.split_at(at);
+    let whole = l.merge(r);
+    kani::assert(whole.len() == s.len && whole.as_ptr() as usize == base, "C16.merge.adjacent_parts_restore_the_whole");
+    let i: usize = kani::any();
+    kani::assume(i < s.len);
+    kani::assert(whole[i] == s.vals[i], "C16.merge.elements_in_order");
+    kani::cover!(at > 0 && at < s.len, "both-parts-non-empty");
+    core::mem::forget(whole);
+}
+
+/// merging parts that are not adjacent (here: in the wrong order) is rejected by a panic
+#[kani::proof]
+#[kani::unwind(7)]
+#[kani::should_panic]
+pub(crate) fn merge_non_adjacent_panics() {
+    let mut s = Sym::any();
+    kani::assume(s.len >= 2);
+    let mut buf = [MaybeUninit::uninit(); CAP];
+    let b = boxed(&mut buf, &s);
+    let at: usize = kani::any();
+    kani::assume(at >= 1 && at < s.len);
+    let (l, r) = b.split_at(at);
+    let w = r.merge(l);
+    kani::cover!(true, "must-not-reach: merge of non-adjacent parts returned");
+    core::mem::forget(w);
+}
+
+#[kani::proof]
+#[kani::unwind(7)]
+pub(crate) fn split_off_first_last_and_spare() {
+    let s = Sym::any();
+    let mut buf = [MaybeUninit::uninit(); CAP];
+    let base = buf.as_ptr() as usize;
+    let op: u8 = kani::any();
+    kani::assume(op < 3);
+    if op == 2 {
+        let v = fixed(&mut buf, &s);
+        let (init, spare) = v.split_at_spare();
+        kani::assert(init.len() == s.len && spare.len() == CAP - s.len, "C16.split_at_spare.lengths_add_up_to_capacity");
+        kani::assert(init.as_ptr() as usize == base && spare.as_ptr() as usize == base + s.len, "C16.split_at_spare.adjacent");
+        let i: usize = kani::any();
+        kani::assume(i < s.len);
+        kani::assert(init[i] == s.vals[i], "C16.split_at_spare.elements_in_order");
+        core::mem::forget(init);
+        core::mem::forget(spare);
+    } else {
+        let mut b = boxed(&mut buf, &s);
+        let first = op == 0;
+        let r = if first { b.split_off_first() } else { b.split_off_last() };
+        match r {
+            Some(x) => {
+                kani::assert(s.len > 0 && *x == (if first { s.vals[0] } else { s.vals[s.len - 1] }), "C16.split_off_first_last.element");
+                kani::assert(b.len() == s.len - 1 && b.as_ptr() as usize == (if first { base + 1 } else { base }), "C16.split_off_first_last.rest");
+                let i: usize = kani::any();
+                kani::assume(i < b.len());
+                kani::assert(b[i] == s.vals[if first { i + 1 } else { i }], "C16.split_off_first_last.rest_in_order");
+                core::mem::forget(x);
+            }
+            None => kani::assert(s.len == 0 && b.len() == 0, "C16.split_off_first_last.none_only_when_empty"),
+        }
+        core::mem::forget(b);
+    }
+    kani::cover!(op == 2 && s.len > 0 && s.len < CAP, "spare-non-trivial");
+    kani::cover!(op == 0 && s.len >= 2, "first");
+}
+
+pub(crate) fn fixed_vec_split_off_capacity(len: usize) {
+    let s = Sym::with_len(len);
     let mut buf = [MaybeUninit::uninit(); CAP];
     let mut v = fixed(&mut buf, &s);
     let (lo, hi): (usize, usize) = (kani::any(), kani::any());
     kani::assume(lo <= hi && hi <= s.len);
+    kani::assume(!(lo > 0 && hi < s.len && lo < hi)); // interior ranges rotate: see split_off_interior_len3
     let part = v.split_off(lo..hi);
     kani::assert(part.len() == hi - lo && v.len() == s.len - (hi - lo), "C16.fixed_split_off.lengths_add_up");
     kani::assert(part.capacity() + v.capacity() == CAP, "C16.fixed_split_off.capacities_add_up");
@@ -357,10 +454,22 @@ pub(crate) fn fixed_vec_split_off_capacity() {
     let (pa, pe) = (part.as_ptr() as usize, part.as_ptr() as usize + part.capacity());
     let (ra, re) = (v.as_ptr() as usize, v.as_ptr() as usize + v.capacity());
     kani::assert(part.capacity() == 0 || v.capacity() == 0 || pe <= ra || re <= pa, "C16.fixed_split_off.buffers_disjoint");
-    kani::cover!(lo > 0 && hi < s.len && lo < hi, "interior-range");
+    kani::cover!(lo == 0 && hi > 0 && hi < s.len, "prefix");
     kani::cover!(hi == s.len && lo < hi, "suffix");
     core::mem::forget(part);
     core::mem::forget(v);
+}
+
+#[kani::proof]
+#[kani::unwind(7)]
+pub(crate) fn fixed_vec_split_off_capacity_len3() {
+    fixed_vec_split_off_capacity(3);
+}
+
+#[kani::proof]
+#[kani::unwind(7)]
+pub(crate) fn fixed_vec_split_off_capacity_len4() {
+    fixed_vec_split_off_capacity(4);
 }
 
 // ------------------------------------------------------------------------------------------ C06
@@ -398,15 +507,11 @@ fn all_dropped_once(len: usize) -> bool {
     ok
 }
 
-#[kani::proof]
-#[kani::unwind(7)]
-pub(crate) fn drops_exactly_once() {
+pub(crate) fn drops_exactly_once(op: u8) {
     let len: usize = kani::any();
-    kani::assume(len <= MAXLEN);
+    kani::assume(len <= 3);
     let mut buf: [MaybeUninit<Tok>; CAP] = [const { MaybeUninit::uninit() }; CAP];
     let mut b = tok_box(&mut buf, len);
-    let op: u8 = kani::any();
-    kani::assume(op < 8);
     let idx: usize = kani::any();
     let (lo, hi): (usize, usize) = (kani::any(), kani::any());
     match op {
@@ -445,16 +550,29 @@ pub(crate) fn drops_exactly_once() {
             drop(d);
         }
         _ => {
-            kani::assume(lo <= hi && hi <= len);
+            kani::assume(lo <= hi && hi <= len && !(lo > 0 && hi < len && lo < hi));
             let part = b.split_off(lo..hi);
             drop(part);
         }
     }
     drop(b);
     kani::assert(all_dropped_once(len), "C06.every_value_dropped_exactly_once");
-    kani::cover!(op == 6 && hi - lo >= 2, "drain-partially-consumed");
-    kani::cover!(op == 5 && len >= 2, "retain");
+    kani::cover!(op != 6 || hi - lo >= 2, "drain-partially-consumed");
+    kani::cover!(len >= 2, "two-or-more-elements");
 }
+
+macro_rules! drops_inst {
+    ($($name:ident = $op:literal),*) => {
+        $(
+            #[kani::proof]
+            #[kani::unwind(7)]
+            pub(crate) fn $name() {
+                drops_exactly_once($op);
+            }
+        )*
+    };
+}
+drops_inst!(drops_clear = 0, drops_truncate = 1, drops_remove = 2, drops_swap_remove = 3, drops_pop = 4, drops_retain = 5, drops_drain = 6, drops_split_off = 7);
 
 #[kani::proof]
 #[kani::unwind(7)]
@@ -496,11 +614,14 @@ pub(crate) fn into_iter_drops_rest() {
 
 pub(crate) const SCAP: usize = 8;
 
-/// up to two symbolic chars (1-4 bytes each), encoded by `char::encode_utf8` (valid by construction)
+/// up to two symbolic chars from an alphabet that covers every UTF-8 length: 'a' (1 byte), 'é' (2), '€' (3), '𝄞' (4).
+/// (Fully symbolic `char`s make `char::encode_utf8` + UTF-8 validation too expensive for CBMC.)
 pub(crate) struct SymStr {
     pub bytes: [u8; SCAP],
     pub len: usize,
 }
+
+const ALPHABET: [&str; 4] = ["a", "\u{e9}", "\u{20ac}", "\u{1d11e}"];
 
 impl SymStr {
     pub(crate) fn any() -> Self {
@@ -510,24 +631,61 @@ impl SymStr {
         kani::assume(n <= 2);
         let mut i = 0;
         while i < n {
-            let c: char = kani::any();
-            len += c.encode_utf8(&mut bytes[len..]).len();
+            let c: usize = kani::any();
+            kani::assume(c < 4 && (i == 0 || c < 2)); // second char: 1 or 2 bytes
+            let e = ALPHABET[c].as_bytes();
+            let mut j = 0;
+            while j < e.len() {
+                bytes[len] = e[j];
+                len += 1;
+                j += 1;
+            }
             i += 1;
         }
         SymStr { bytes, len }
     }
     pub(crate) fn as_str(&self) -> &str {
-        core::str::from_utf8(&self.bytes[..self.len]).unwrap()
+        unsafe { core::str::from_utf8_unchecked(&self.bytes[..self.len]) }
     }
+}
+
+/// UTF-8 validity for the short strings used here (independent, simple decoder)
+pub(crate) fn valid_utf8(b: &[u8]) -> bool {
+    let mut i = 0;
+    let mut steps = 0;
+    while i < b.len() && steps < SCAP {
+        let c = b[i];
+        let n = if c < 0x80 {
+            1
+        } else if c & 0xE0 == 0xC0 && c >= 0xC2 {
+            2
+        } else if c & 0xF0 == 0xE0 {
+            3
+        } else if c & 0xF8 == 0xF0 && c <= 0xF4 {
+            4
+        } else {
+            return false;
+        };
+        if i + n > b.len() {
+            return false;
+        }
+        let mut k = 1;
+        while k < n {
+            if b[i + k] & 0xC0 != 0x80 {
+                return false;
+            }
+            k += 1;
+        }
+        i += n;
+        steps += 1;
+    }
+    i == b.len()
 }
 
 pub(crate) fn str_box<'a>(buf: &'a mut [u8; SCAP], s: &SymStr) -> BumpBox<'a, str> {
     *buf = s.bytes;
-    let bytes: BumpBox<'a, [u8]> = unsafe { BumpBox::from_raw(NonNull::slice_from_raw_parts(NonNull::new_unchecked(buf.as_mut_ptr()), s.len)) };
-    match BumpBox::from_utf8(bytes) {
-        Ok(b) => b,
-        Err(_) => panic!("valid by construction"),
-    }
+    // same representation as `BumpBox<[u8]>` (what `BumpBox::from_utf8_unchecked` does)
+    unsafe { BumpBox::from_raw(NonNull::new_unchecked(core::ptr::slice_from_raw_parts_mut(buf.as_mut_ptr(), s.len) as *mut str)) }
 }
 
 #[kani::proof]
@@ -558,7 +716,7 @@ pub(crate) fn str_pop_truncate_remove() {
         }
     }
     kani::assert(same(b.as_bytes(), m.as_bytes()), "C09.box_str.same_contents");
-    kani::assert(core::str::from_utf8(b.as_bytes()).is_ok(), "C09.box_str.valid_utf8");
+    kani::assert(valid_utf8(b.as_bytes()), "C09.box_str.valid_utf8");
     kani::cover!(op == 2 && idx > 0, "remove-second-char");
     kani::cover!(op == 0 && s.len >= 5, "pop-multibyte");
     core::mem::forget(b);
@@ -575,7 +733,7 @@ pub(crate) fn str_split_off() {
     let part = b.split_off(lo..hi);
     kani::assert(part.len() == hi - lo && b.len() == s.len - (hi - lo), "C16.str_split_off.lengths_add_up");
     kani::assert(same(part.as_bytes(), &s.bytes[lo..hi]), "C16.str_split_off.part_is_the_range");
-    kani::assert(core::str::from_utf8(part.as_bytes()).is_ok() && core::str::from_utf8(b.as_bytes()).is_ok(), "C09.str_split_off.both_valid_utf8");
+    kani::assert(valid_utf8(part.as_bytes()) && valid_utf8(b.as_bytes()), "C09.str_split_off.both_valid_utf8");
     let mut m = String::from(s.as_str());
     m.replace_range(lo..hi, "");
     kani::assert(same(b.as_bytes(), m.as_bytes()), "C16.str_split_off.rest_keeps_order");
